@@ -96,15 +96,15 @@ def w_svd(ctx, rng, idx):
     d = t.order
     ctx.describe({'op': 'svd at every index', 'rows': t.row_dims, 'ranks': t.ranks, 'kind': kind, 'complex': bool(np.iscomplexobj(t.cores[0]))})
     for index in range(1, d):
-        call('TT.svd', lambda: t.svd(index), prop=P)
-        call('TT.svd', lambda: t.svd(index, threshold=1e-10), prop=P)
+        call('TT.svd', t.svd, index, prop=P)
+        call('TT.svd', t.svd, index, prop=P, threshold=1e-10)
         call('TT.svd', lambda: t.svd(index, max_rank=int(rng.integers(1, 4))), prop=P)
     index = int(rng.integers(1, d))
     u = clone(t)
-    call('TT.svd', lambda: u.svd(index, overwrite=True), prop=P)
+    call('TT.svd', u.svd, index, prop=P, overwrite=True)
     # ... and the train the overwriting call leaves behind is a train like any other: split it again, in place and not
     i2 = int(rng.integers(1, d))
-    call('TT.svd', lambda: u.svd(i2, overwrite=True), prop=P, tags=['after_overwriting_call'])
+    call('TT.svd', u.svd, i2, prop=P, tags=['after_overwriting_call'], overwrite=True)
     call('TT.svd', lambda: u.svd(int(rng.integers(1, d)), threshold=1e-10), prop=P, tags=['after_overwriting_call'])
     if idx < 3:
         ctx.sample({'workload': 'svd', 'row_dims': t.row_dims, 'ranks': t.ranks, 'kind': kind, 'indices': list(range(1, d))})
@@ -115,14 +115,14 @@ def w_pinv(ctx, rng, idx):
     d = t.order
     ctx.describe({'op': 'pinv at every index', 'rows': t.row_dims, 'ranks': t.ranks, 'kind': kind, 'complex': bool(np.iscomplexobj(t.cores[0]))})
     for index in range(1, d):
-        call('TT.pinv', lambda: t.pinv(index), prop=P)
-        call('TT.pinv', lambda: t.pinv(index, threshold=1e-10), prop=P)
+        call('TT.pinv', t.pinv, index, prop=P)
+        call('TT.pinv', t.pinv, index, prop=P, threshold=1e-10)
         call('TT.pinv', lambda: t.pinv(index, threshold=float(10 ** rng.uniform(-12, -6))), prop=P)
     index = int(rng.integers(1, d))
     u = clone(t)
-    call('TT.pinv', lambda: u.pinv(index, threshold=1e-10, overwrite=True), prop=P)
+    call('TT.pinv', u.pinv, index, prop=P, threshold=1e-10, overwrite=True)
     i2 = int(rng.integers(1, d))
-    call('TT.pinv', lambda: u.pinv(i2, threshold=1e-10, overwrite=True), prop=P, tags=['after_overwriting_call'])
+    call('TT.pinv', u.pinv, i2, prop=P, tags=['after_overwriting_call'], threshold=1e-10, overwrite=True)
 
 
 def w_flags(ctx, rng, idx):
@@ -145,10 +145,10 @@ def w_flags(ctx, rng, idx):
             u.ortho_right(end_index=index)
             fl, fr = False, False
     ctx.describe({'op': 'svd/pinv with sweeps off', 'rows': t.row_dims, 'ranks': u.ranks, 'kind': kind, 'index': index, 'ortho_l': fl, 'ortho_r': fr})
-    call('TT.svd', lambda: u.svd(index, ortho_l=fl, ortho_r=fr), prop=P)
-    call('TT.pinv', lambda: u.pinv(index, ortho_l=fl, ortho_r=fr), prop=P)
-    call('TT.svd', lambda: u.svd(index, threshold=1e-10, ortho_l=fl, ortho_r=fr), prop=P)
-    call('TT.pinv', lambda: u.pinv(index, threshold=1e-10, ortho_l=fl, ortho_r=fr), prop=P)
+    call('TT.svd', u.svd, index, prop=P, ortho_l=fl, ortho_r=fr)
+    call('TT.pinv', u.pinv, index, prop=P, ortho_l=fl, ortho_r=fr)
+    call('TT.svd', u.svd, index, prop=P, threshold=1e-10, ortho_l=fl, ortho_r=fr)
+    call('TT.pinv', u.pinv, index, prop=P, threshold=1e-10, ortho_l=fl, ortho_r=fr)
 
 
 WORKLOADS = [
